@@ -3,6 +3,7 @@
    on the repository's own functions, against ParseMCNPCell.parse(). *)
 From Coq Require Import List NArith ZArith Bool String Ascii PrimFloat.
 From T4V Require Import Base.Str Base.Scalar Base.Cases C15.Model C15.Canon.
+From T4V Require C12.Exec.   (* float -> Z conversions (f_roundZ), read-only *)
 Import ListNotations.
 Open Scope string_scope.
 
@@ -25,7 +26,7 @@ Definition fl_close (a b : fl) : bool := list_eqb f_close9 a b.
 
 (* tables of the case *)
 Record tables := mkTables {
-  t_num : list (string * (option float * option Z * option Z * option Z));
+  t_num : list (string * (option float * option Z * option Z));
   t_tr : list (Z * fl);
   t_norm : list (fl * res fl);
   t_nf : list (string * string);
@@ -36,10 +37,10 @@ Record tables := mkTables {
 
 Definition env_of (t : tables) : env (T:=float) :=
   mkEnv
-    (fun s => match assoc String.eqb s (t_num t) with Some (f, _, _, _) => f | None => None end)
-    (fun s => match assoc String.eqb s (t_num t) with Some (_, z, _, _) => z | None => None end)
-    (fun s => match assoc String.eqb s (t_num t) with Some (_, _, z, _) => z | None => None end)
-    (fun s => match assoc String.eqb s (t_num t) with Some (_, _, _, z) => z | None => None end)
+    (fun s => match assoc String.eqb s (t_num t) with Some (f, _, _) => f | None => None end)
+    (fun s => match assoc String.eqb s (t_num t) with Some (_, z, _) => z | None => None end)
+    C12.Exec.f_roundZ
+    (fun s => match assoc String.eqb s (t_num t) with Some (_, _, z) => z | None => None end)
     (fun n => assoc Z.eqb n (t_tr t))
     (fun v => match assoc fl_close v (t_norm t) with Some r => r | None => Err ENoTable end)
     (fun s => match assoc String.eqb s (t_nf t) with Some r => r | None => "?no-table" end)
@@ -52,7 +53,7 @@ Definition zz_eqb (a b : Z * Z) : bool := pair_eqb Z.eqb Z.eqb a b.
 Definition fillid_eqb (a b : fillid) : bool :=
   match a, b with
   | FillU x, FillU y => Z.eqb x y
-  | FillLat b1 u1, FillLat b2 u2 => list_eqb zz_eqb b1 b2 && list_eqb Z.eqb u1 u2
+  | FillLat b1 u1, FillLat b2 u2 => list_eqb zz_eqb b1 b2 && list_eqb (option_eqb Z.eqb) u1 u2
   | _, _ => false
   end.
 
